@@ -11,7 +11,8 @@
 //        run <id> | stop                          (pool)
 //   schedule <ints…>                              run the case (in a forked child) and print its events
 // Event lines: `T<i> <op> -> <result>`, `T<j> exec <id>`, then `done` or `blocked T0:… T1:…`.
-// Oracle-only lines: `# call T<i> <op>` (before the op), `# stopflag T<i>` (stop() has cleared the flag),
+// Oracle-only lines: `# call T<i> <op>` (before the op), `# stopflag T<i>` (stop() has cleared the flag; printed at
+// the first notify/unlock after stop() locked the mutex),
 // `# dec <decisions>`, `# final <n>`.
 // Thread numbering = detsched index: T0 main; pool workers T1..T<threads>, program thread k after them.
 #include <assert.h>
@@ -207,10 +208,20 @@ bool onlySpuriousLeft() {
   return waiter;
 }
 
+// `# stopflag`: stop() stores running_ = false right after it has locked the mutex.  The marker is printed at the
+// first scheduler-visible action of that thread after the lock (a notify, or the unlock) — in the same atomic step
+// as the store, and without relying on any particular notification being there.
+bool g_stopPending[kMaxThreads * 2 + 2];
+
 void observer(const ds::Ev& e) {
-  if (e.kind == ds::EV_NOTIFYALL && e.name && !strcmp(e.name, "notEmpty") && g_case->kind == K_POOL) {
+  if (g_case->kind == K_POOL && e.thread >= 0 && e.thread < static_cast<int>(sizeof g_stopPending / sizeof *g_stopPending)) {
     ds::Thr* t = ds::g().thr[static_cast<size_t>(e.thread)];
-    if (t->label == "stop") printf("# stopflag T%d\n", e.thread);
+    if (e.kind == ds::EV_LOCK) {
+      if (t->label == "stop" && e.name && !strcmp(e.name, "m")) g_stopPending[e.thread] = true;
+    } else if (g_stopPending[e.thread]) {
+      g_stopPending[e.thread] = false;
+      printf("# stopflag T%d\n", e.thread);
+    }
   }
   if ((e.kind == ds::EV_WAIT || e.kind == ds::EV_EXIT) && ds::cfg().spurious && onlySpuriousLeft()) ds::reportBlocked();
 }
